@@ -26,6 +26,9 @@ def gen_cases(tier, seed):
     for i, k in enumerate(scal):
         base = 1 if i % 3 == 0 else rng.randrange(1, N)
         yield "scalar", {"k": hex(k), "base": hex(base)}
+    # the identity as the BASE point: k*O = O for every k ("all curve points and the identity")
+    for k in [0, 1, 2, 3, N - 1, N, N + 1, (1 << 256) - 1] + [rng.getrandbits(256) for _ in range(4)]:
+        yield "scalar", {"k": hex(k), "base": "0x0"}
     # additions
     for i in range(300 if q else 6000):
         a, b = rng.randrange(1, N), rng.randrange(1, N)
@@ -34,6 +37,9 @@ def gen_cases(tier, seed):
     for i in range(100 if q else 1500):
         yield "identities", {"a": hex(rng.getrandbits(rng.choice([8, 64, 256]))), "b": hex(rng.getrandbits(rng.choice([8, 64, 256]))),
                              "base": hex(rng.randrange(1, N))}
+    # ... with a or b a multiple of the group order (bP or aP is the identity)
+    for a, b in [(0, 5), (5, 0), (N, 7), (7, N), (2 * N, 3), (0, 0), (N, N), (N - 1, 1), (1, N - 1)]:
+        yield "identities", {"a": hex(a), "b": hex(b), "base": hex(rng.randrange(1, N))}
     # public key derivation
     ks = keys_boundary() + [rng.randrange(1, N) for _ in range(150 if q else 3000)]
     for k in ks:
@@ -63,7 +69,7 @@ def gen_cases(tier, seed):
 
 
 def required(tier):
-    return {"scalar.decided": 40, "add.decided": 30, "add.rel.neg": 3, "add.rel.same": 3, "add.rel.same_y": 3, "add.rel.same_object": 3, "identities.decided": 20,
+    return {"scalar.decided": 40, "scalar.base_identity": 8, "add.decided": 30, "add.rel.neg": 3, "add.rel.same": 3, "add.rel.same_y": 3, "add.rel.same_object": 3, "identities.decided": 20,
             "pubkey.decided": 30, "privkey.refused": 150, "privkey.refused_after_valid_use": 100, "keygen.decided": 10, "keygen.draw0": 1,
             "small.pairs": 5000, "small.scalars": 5000, "small.assoc": 20000,
             "contract:point_add.closed": 10000, "contract:point_scalar_mul.closed": 1000}
@@ -81,8 +87,10 @@ def run_case(kind, params, ctx):
     if kind == "scalar":
         k = int(params["k"], 16)
         base = int(params["base"], 16)
-        Pt = secp.pub(base)
-        exp = S.mul(k, Pt)
+        Pt = secp.pub(base) if base else None
+        exp = S.mul(k, Pt) if base else None
+        if not base:
+            ctx.count("scalar.base_identity")
         try:
             got = em.point_scalar_mul(k, Pt)
         except ContractViolation:
@@ -157,9 +165,7 @@ def run_case(kind, params, ctx):
         if lhs != rhs:
             ctx.violation("identity/distributive", f"(a+b)P != aP+bP for a={a:#x} b={b:#x}")
         abP = em.point_scalar_mul(a * b, Pt)
-        a_bP = em.point_scalar_mul(a, bP) if bP is not None else None
-        if bP is None:
-            a_bP = None
+        a_bP = em.point_scalar_mul(a, bP)        # bP may be the identity (b = 0, n, 2n ...): a*O = O
         if abP != a_bP:
             ctx.violation("identity/associative-scalar", f"a(bP) != (ab)P for a={a:#x} b={b:#x}")
         return
